@@ -391,6 +391,7 @@ func runC07(c *Ctx) {
 	clauseExistingDirReused(c, "C07.j")
 	clauseWhiteoutInodeFromMarker(c, "C07.k")
 	clauseLookupMemoryNodeAttrs(c, "C07.l")
+	clauseLayerRootIsMetadataRoot(c, "C07.m")
 	c.assume("overlayfs interprets a 0/0 character device as a whiteout and the configured xattr as opaque marker")
 }
 
@@ -506,6 +507,7 @@ func runC02(c *Ctx) {
 
 	clauseLRUPin(c, "C02.d")
 	clauseCacheReleaseDiscipline(c, "C02.l")
+	clauseCloneNotClosed(c, "C02.m")
 	clauseStreamPosition(c, "C02.e")
 	clausePrivateCaches(c, "C02.f")
 	clauseSortedChunks(c, "C02.g")
